@@ -2,7 +2,8 @@
 """
 C15 — introspection reports exactly the schema.
 
-* extract: `_format_default_value` is TRANSLATED statement by statement, the `_resolve_type_kind`
+* extract: `_format_default_value` is TRANSLATED statement by statement (both today's form and the form of
+  proposed_fixes/C15-I1-partial.patch, incl. its module-level escape table `_STRING_ESCAPES`), the `_resolve_type_kind`
   dispatch table and the meta-field names / branch order of `ResolutionContext.field_definition`
   are extracted, into `PyGqlModel/Generated/Introspection.lean`.
 * correspondence: the real standard introspection query (and `__type(name:)` queries) on generated
@@ -28,7 +29,7 @@ RULE = ("schemas: seeded gen/schema.py descriptions built from SDL and re-built 
 ASSUMPTIONS = [
     "type references have at most 7 wrappers (the standard query's TypeRef fragment stops at 8 levels; deeper types are truncated by the QUERY, not by the server)",
     "enum internal values are hashable and pairwise distinct (EnumType._reverse_values is a dict: the last of two equal values wins)",
-    "code-built input-object defaults list every field that has its own default (value_from_ast fills missing fields from field defaults: finding H2 of C12, not part of this statement)",
+    "defaults are compared after the completion value_from_ast performs (absent input-object fields take the field's own default, a single value at a list type is the one-element list): that completion is coercion's business (ledger H2), not introspection's",
     "generated deprecation reasons are non-empty; the empty reason (ledger I2: Field.deprecated = bool(reason) vs EnumValue.deprecated = reason is not None) is checked by a dedicated oracle (oracle_empty_reason) and corpus/C15/03-empty-reason.json",
     "default values are JSON-like Python values (None/bool/int/float/str/list/dict); floats travel as repr strings",
 ]
